@@ -133,11 +133,13 @@ class Requests(Part):
                 return v
             problem.predict = predict_hook
         problem.surrogate = sur
+        vpool = [[round(rng.uniform(-5, 5), 3), round(rng.uniform(-5, 5), 3)] for _ in range(rng.choice([1, 2, 3, 50]))]
         trace = [{"ev": "config", "ts": ts, "mode": mode, "trained": bool(trained0)}]
         for i, acc in enumerate(accepts):
             state["i"] = i
             state["last_true"] = state["last_pred"] = None
-            ind = Individual([round(rng.uniform(-5, 5), 3), round(rng.uniform(-5, 5), 3)])
+            # vectors come from a small pool: the same design may be requested (and truly evaluated) several times
+            ind = Individual(list(rng.choice(vpool)))
             ndata_before = len(sur.x_data)
             st, val = observe(sur.evaluate, ind)
             ev = {"ev": "request", "accept": bool(acc), "kind": "eval", "returned_true": False, "returned_pred": False,
